@@ -41,6 +41,11 @@ func verifC13Frame(state int, compression bool, client bool) {
 // payload "a") leaves behind — including states no well-behaved peer creates
 // (a non-final continuation with nothing to continue).
 func verifC13FrameAfter(state int, compression bool, client bool, firstOp int, firstFin bool) {
+	verifC13FrameAfterN(state, compression, client, firstOp, firstFin, 1)
+}
+
+// firstLen: payload length (0 or 1) of the frame(s) that establish the state
+func verifC13FrameAfterN(state int, compression bool, client bool, firstOp int, firstFin bool, firstLen int) {
 	ep := verifNewEndpoint(client, compression, 0, nil)
 	c := ep.c
 	var prior []byte
@@ -50,7 +55,11 @@ func verifC13FrameAfter(state int, compression bool, client bool, firstOp int, f
 		if firstFin {
 			b0 |= 0x80
 		}
-		err := c.Parse([]byte{b0, 1, 'a'})
+		first := []byte{b0, byte(firstLen)}
+		if firstLen == 1 {
+			first = append(first, 'a')
+		}
+		err := c.Parse(first)
 		failed0 := verifProtocolFailure(ep, err)
 		isCtl := firstOp >= 8
 		switch {
@@ -67,11 +76,11 @@ func verifC13FrameAfter(state int, compression bool, client bool, firstOp int, f
 			}
 			strayOpen = true
 			state = 3
-			prior = []byte{'a'}
+			prior = first[2:]
 		case firstOp == 1 && !firstFin:
-			state, prior = 1, []byte{'a'}
+			state, prior = 1, first[2:]
 		case firstOp == 2 && !firstFin:
-			state, prior = 2, []byte{'a'}
+			state, prior = 2, first[2:]
 		default:
 			verifAssertD(!failed0, "accepts-what-rfc-allows", "first-frame")
 			if failed0 {
@@ -85,8 +94,12 @@ func verifC13FrameAfter(state int, compression bool, client bool, firstOp int, f
 		if state == 2 {
 			op = byte(BinaryMessage)
 		}
-		prior = []byte{'a'}
-		err := c.Parse([]byte{op, 1, 'a'})
+		first := []byte{op, byte(firstLen)}
+		if firstLen == 1 {
+			first = append(first, 'a')
+		}
+		prior = first[2:]
+		err := c.Parse(first)
 		verifAssert(err == nil && len(ep.msgs) == 0 && !ep.fake.closed, "setup-first-fragment-accepted")
 	}
 	b0 := verifByte("b0")
@@ -296,6 +309,12 @@ func verifHarness_C13_second_frame_after_any_first_T() {
 	ops := []int{0, 1, 2, 8, 9, 10}
 	op := ops[verifChoose("first_op", len(ops))]
 	fin := verifChoose("first_fin", 2) == 1
-	verifC13FrameAfter(0, false, false, op, fin)
+	verifC13FrameAfterN(0, false, false, op, fin, verifChoose("first_payload_len", 2))
+	verifAssert(false, "witness")
+}
+
+// fragmented messages opened by an EMPTY first fragment
+func verifHarness_C13_frame_after_empty_first_fragment() {
+	verifC13FrameAfterN(1+verifChoose("binary", 2), false, false, -1, false, 0)
 	verifAssert(false, "witness")
 }
